@@ -19,6 +19,9 @@ func propC17(c *Ctx, r *Report) {
 	ruleDevRewards(c, r, newEraCtx(c, r), "C17-P10/dev-reward-history")
 	// each recorded action is returned as recorded: per-row records of the history readers are fresh
 	ruleRowRecordFresh(c, r, "C17-P9/row-record-fresh", c.RAPI)
+	// one history row per entry, pending only while the holding row exists: plain inserts, holding never deleted
+	// (shared with C06-R5)
+	ruleInsertOnly(c, r, buildSQLCat(c), "C17-P11/insert-only")
 	rb := c.fn("node.Pegnetd.recordBatch")
 	hold := c.fn("node.Pegnetd.ApplyTransactionBatchesInHolding")
 	atbk := c.fn("node.Pegnetd.ApplyTransactionBlock")
